@@ -142,7 +142,8 @@ def run(chk):
                         if name == "bdd_complexity":
                             # the node-counting kernel (C07, not applicable) stays an uninterpreted function of
                             # (num_vars, concatenated blocks): both types must hand it the same arguments
-                            for blk in b["mir"]["blocks"]:
+                            scan_bodies = [b] + [x for x in env.facts.lib_bodies() if x["path"].startswith(b["path"] + "::{closure")]
+                            for blk in (bl for sb in scan_bodies for bl in sb["mir"]["blocks"]):
                                 tm_ = blk["term"]
                                 if tm_["k"] == "call" and "indirect" not in tm_["func"] and (tm_["func"].get("resolved") or {}).get("local"):
                                     cb = env.facts.body(tm_["func"]["resolved"]["key"])
@@ -243,6 +244,8 @@ def run(chk):
             except Undecided as e:
                 v, d = UNDECIDED, e.cause
             chk.add("C10.S", key, v, d, where=where_of(ts[k]))
+    # ------------------------------------------------------------------ C10.W counts on small windows
+    bdd_windows(chk, env)
     # ------------------------------------------------------------------ C10.C conversions
     for b, sty, tr in facts.trait_impl_methods("std::convert::"):
         label = "<%s as %s>::%s" % (sty["s"], tr["s"], b["name"])
@@ -330,6 +333,8 @@ def run(chk):
         from .. import witnesses
         witnesses.run(chk, "C10", ["W2", "W3"])
     chk.notes["n_range"] = [0, nmax]
+    from ..history import history_rule
+    history_rule(chk, "C10.H", F.load("dbg"))
 
 
 def strip_nv(rs, n):
@@ -383,3 +388,69 @@ def first_diff(a, b, path="result"):
             return str(x)[:80]
         return "%s: %s vs %s" % (path, show(a), show(b))
     return path
+
+
+def bdd_windows(chk, env):
+    """C10.W: bdd_complexity of both types with the counting kernel *interpreted* (window mode: symbolic tables of 2 and
+    3 variables, at most 8 atoms; sort / dedup / retain semantic) on [f], [f, f], [f, !f], [f, g]: the two summaries are
+    evaluated on every choice of the tables and must give the same count.  (C10.S only shows that both types hand the
+    same arguments to the kernel; a different decomposition of the count - per function instead of shared - is caught
+    here.)"""
+    import itertools as _it
+    from ..absint import new_cell
+    cases = [(2, ("f",)), (2, ("f", "f")), (2, ("f", "~f")), (2, ("f", "g")), (3, ("f",)), (3, ("f", "f")), (3, ("f", "~f")), (1, ("f", "g", "f"))]
+    for n, names in cases:
+        key = "bdd_complexity on %s, n=%d" % ("[" + ", ".join(names) + "]", n)
+        try:
+            base = sorted({nm.lstrip("~") for nm in names})
+            atoms = ["%s[%d]" % (nm, p_) for nm in base for p_ in range(1 << n)]
+            summaries = {}
+            for kind in ("dyn", "static"):
+                K = env.kinds[kind]
+                b = K.methods.get("bdd_complexity")
+                if b is None:
+                    raise Undecided("bdd_complexity not found for %s" % K.adt)
+                it = env.interp(max_paths=20000)
+                it.max_steps = 100000000
+                it.prune = True
+                it.split_all = True
+                it.cmp_split = True
+                space = Space(atoms)
+                it.space = space
+                st = State()
+                tabs = []
+                for nm in names:
+                    words = sym_words(n, nm.lstrip("~"))
+                    if nm.startswith("~"):
+                        words = [W(64, bits=[B.bnot(x) if p_ < (1 << n) else x for p_, x in enumerate(w_.all_bits())]) for w_ in words]
+                    tabs.append(K.mk(st, n, words))
+                cell = new_cell()
+                st.mem[cell] = Arr(tabs)
+                with space:
+                    outs = it.call_body(b, [Ptr(cell, (), (0, len(tabs)))], st, K.env(n))
+                owner = {}
+                for o in outs:
+                    m_ = space.pc_mask(o.pc)
+                    if m_ is None:
+                        raise Undecided("path condition with top")
+                    val = ("panic", o.info.get("msg")) if o.kind != "return" else (("value", o.value.val) if isinstance(o.value, W) and o.value.val is not None else None)
+                    if val is None and m_:
+                        raise Undecided("symbolic count")
+                    while m_:
+                        low = m_ & -m_
+                        owner.setdefault(low.bit_length() - 1, []).append(val)
+                        m_ ^= low
+                summaries[kind] = owner
+            v, d = PROVED, ""
+            for r_ in range(1 << len(atoms)):
+                a_, b_ = summaries["dyn"].get(r_, []), summaries["static"].get(r_, [])
+                if len(a_) != 1 or len(b_) != 1:
+                    v, d = UNDECIDED, "%d / %d paths enabled" % (len(a_), len(b_))
+                    break
+                if a_[0] != b_[0]:
+                    tabs_ = {nm: "".join(str((r_ >> (k_ * (1 << n) + p_)) & 1) for p_ in range(1 << n)) for k_, nm in enumerate(base)}
+                    v, d = REFUTED, "for %s (truth tables, assignment 0 first) Lut::bdd_complexity gives %s and LutN::bdd_complexity gives %s" % (tabs_, a_[0][1], b_[0][1])
+                    break
+        except Undecided as e:
+            v, d = UNDECIDED, e.cause
+        chk.add("C10.W", key, v, d, where=where_of(env.kinds["static"].methods["bdd_complexity"]) if "bdd_complexity" in env.kinds["static"].methods else None)
